@@ -93,3 +93,20 @@ Theorem C04_slot_decode : forall lanes k e K R recv w, (k < lanes)%nat -> Forall
                           (snd (decode_low_work sym_ops e K R recv (map (fun s => nth k s 0) w))).
 Proof. intros; split; [apply decode_high_lanes|apply decode_low_lanes]; assumption. Qed.
 Print Assumptions C04_slot_decode.
+
+(* ---- through the streaming API: every 16-bit slot of every recovery shard an encoder object returns for
+   shards of ANY even size is what an encoder for 2-byte shards returns for that slot on its own
+   (slot_shard l b = the 2-byte shard holding slot l of b); any codec, any two engines, recycled working
+   space, stale memory ---- *)
+From RS.Model Require Import Machine.
+From RS.Proofs Require Import MachineOps MachineSlots.
+Theorem C04_api_slotwise : forall (junk : N -> N -> N -> N), (forall a b c, junk a b c < 65536) ->
+  forall (c : codec) (e1 e2 : engine) (K R sb ep1 ep2 : N) (o : list bytes) (l : nat),
+  validateb c K R sb = None -> N.of_nat (length o) = K -> Forall (byteshard sb) o -> (l < N.to_nat (lanes_of sb))%nat ->
+  forall (w1 w2 : encwork) (x01 x1 x02 x2 : encoder) (a1 a2 : bool),
+  enc_make c e1 K R sb w1 = inl (x01, a1) -> enc_add_all x01 o = inl x1 ->
+  enc_make c e2 K R 2 w2 = inl (x02, a2) -> enc_add_all x02 (map (slot_shard l) o) = inl x2 ->
+  forall j, j < R ->
+  nth (N.to_nat j) (encode_shards junk ep2 x2) [] = slot_shard l (nth (N.to_nat j) (encode_shards junk ep1 x1) []).
+Proof. exact ops_encode_slotwise. Qed.
+Print Assumptions C04_api_slotwise.
